@@ -33,6 +33,9 @@ enum EDup { EDup_First = 1, EDup_Default = 1, EDup_Other = 2, EDup_Big = 2147483
 struct DupE { EDup e; EDup a<>; };
 union BigDisc { 1: u8 a; 2147483648: u32 b; 4294967295: EDup c; };
 struct BigDiscS { BigDisc u; u8 t; };
+struct DynOpt { u8 n<>; u32* o; u16* p; };
+struct GrDO { u16 k; DynOpt g<...>; };
+struct ArrDO { DynOpt a<>; u8 t; };
 '''
 
 
